@@ -43,17 +43,23 @@ pub fn c16_stride() {
     stride_roundtrip(orig);
 }
 
-// @h prop=C16 tier=thorough kind=proof timeout=2400 inst="Stride::Striding(s,c) / Saturated(s,c,r), all fields symbolic" bounds="any reachable state (c >= 2, s*(c-1) does not overflow, c, r <= isize::MAX); one symbolic continuation push" desc="as c16_stride, full 64-bit fields"
+// @h prop=C16 tier=thorough kind=proof inst="Stride::Striding(s,c) / Saturated(s,c,r), all fields symbolic" bounds="all three fields unconstrained 64-bit values (no reachability assumption at all)" desc="the deserialised value is structurally equal to the original, field by field - which determines every future answer (the continuation with full-width fields, a symbolic 64x64 multiplication on both copies, ran past 2400 s; C05's one-step harnesses decide push from any such state)"
 #[cfg(feature = "thorough")]
 #[cfg_attr(kani, kani::proof, kani::unwind(4))]
 pub fn c16_stride_full() {
     let s = sym::usize();
     let c = sym::usize();
     let r = sym::usize();
-    sym::assume(c >= 2 && c <= isize::MAX as usize && r >= 1 && r <= isize::MAX as usize);
-    sym::assume(s.checked_mul(c - 1).is_some());
     let orig = if sym::bool() { Stride::Striding(s, c) } else { Stride::Saturated(s, c, r) };
-    stride_roundtrip(orig);
+    let t = to_tokens(&orig);
+    let copy: Stride = from_tokens(&t);
+    assert!(copy == orig, "C16: deserialised Stride differs from the original");
+    match (copy, orig) {
+        (Stride::Striding(a, b), Stride::Striding(x, y)) => assert!(a == x && b == y, "C16: Striding fields differ"),
+        (Stride::Saturated(a, b, d), Stride::Saturated(x, y, z)) => assert!(a == x && b == y && d == z, "C16: Saturated fields differ"),
+        _ => assert!(false, "C16: variant differs"),
+    }
+    cover!(true, "end reached");
 }
 
 // @h prop=C16 tier=quick kind=proof engine=both unwindset="memcmp:40" inst="IndexList<Vec<u32>,Vec<u64>>" bounds="state {smol: [a,b], chonk: [c]} with symbolic a,b,c; one symbolic continuation push" desc="structural equality and identical continuation"
@@ -283,4 +289,28 @@ pub fn c16_sd_index_list() {
     assert!(o == copy && o.len() == 4 && copy.index(3) == x, "C16: IndexList deserialised from a self-describing format continues differently");
     cover!(true, "end reached");
     sym::forget((o, copy));
+}
+
+// @h prop=C16 tier=quick kind=proof inst="ConsecutiveIndexPairs<OwnedRegion<u8>, IndexOptimized> whose FIRST items are empty (offsets 0, 0, ..: the stride is 0)" bounds="stored items of 0, 0 and 1 symbolic bytes; continuation: one 2-byte item" desc="a zero stride (first items empty) survives the round trip: same reads, same continuation index, index compression still free"
+#[cfg_attr(kani, kani::proof, kani::unwind(8))]
+pub fn c16_cip_first_items_empty() {
+    type R = ConsecutiveIndexPairs<OwnedRegion<u8>, IndexOptimized>;
+    let b = Bytes::<3>::any_len(1);
+    let c = Bytes::<3>::any_len(2);
+    let mut orig = R::default();
+    let i0 = orig.push([0u8; 0].as_slice());
+    let i1 = orig.push([0u8; 0].as_slice());
+    let t = to_tokens(&orig);
+    let mut copy: R = from_tokens(&t);
+    assert!(copy.index(i0).is_empty() && copy.index(i1).is_empty(), "C16: empty first items read differently on the copy");
+    let io = orig.push(b.as_slice());
+    let ic = copy.push(b.as_slice());
+    assert!(io == ic && same_bytes(copy.index(ic), b.as_slice()), "C16: continuation after empty first items differs on the copy");
+    let t2 = to_tokens(&orig);
+    let mut copy2: R = from_tokens(&t2);
+    let jo = orig.push(c.as_slice());
+    let jc = copy2.push(c.as_slice());
+    assert!(jo == jc && same_bytes(copy2.index(jc), c.as_slice()) && same_bytes(copy2.index(io), b.as_slice()), "C16: second round trip (zero stride broken by a non-empty item) differs");
+    cover!(true, "end reached");
+    sym::forget((orig, copy, copy2));
 }
